@@ -54,6 +54,10 @@ def has_wildcard(circ):
 
 def run_case(case):
     prog = case["prog"]
+    if known.active("shared-network-leak") and lang.shared_source_shape(prog):
+        # open finding F-leak: a source that reaches two consumers, one of which has another source (an alias of a bundle,
+        # or two equal member expressions merged by CSE, escapes the generator's naming discipline)
+        return {"discard": "excluded:F-leak", "counters": {"excluded_by:F-leak": 1}}
     text, res = common.compile_case(case)
     if not res.accepted:
         return common.reject_result(res)
